@@ -32,3 +32,15 @@ Fixpoint chk_build (cs : list mcase) (i : nat) : nat * list nat :=
   end.
 (* which aspect disagrees: 1 names, 2 values, 3 drop set, 4 structure, 5 error class *)
 Definition why (c : mcase) : nat := agree (build (m_frame c) (m_nrows c) (m_cfg c) (m_terms c)) (m_expect c).
+
+(* structured formulas: one expectation per part, in flatten order *)
+Record pcase := { p_frame : frame; p_nrows : nat; p_cfg : cfg; p_parts : list (list term); p_expect : list expect + nat }.
+Definition pagree (c : pcase) : bool :=
+  match build_parts (p_frame c) (p_nrows c) (p_cfg c) (p_parts c), p_expect c with
+  | inl outs, inl xs => (fix go (a : list out) (b : list expect) : bool :=
+                           match a, b with [], [] => true | o :: a', x :: b' => Nat.eqb (agree (inl o) x) 0 && go a' b' | _, _ => false end) outs xs
+  | inr e, inr k => Nat.eqb (errcode e) k
+  | _, _ => false
+  end.
+Fixpoint chk_parts (cs : list pcase) (i : nat) : nat * list nat :=
+  match cs with [] => (O, []) | c :: r => let '(m, fl) := chk_parts r (S i) in if pagree c then (m, fl) else (S m, i :: fl) end.
